@@ -11,7 +11,8 @@ Plan (JSON-able; all delays in units of simloop.U = 2**-10 s, overshoots in unit
                                                addon then intercepts it and it is resumed after `hold`
      "reactions": [[action...]...],            n-th event delivered to the layer -> commands it returns
      "eager": bool,                            eager task start (as under Master.run) or asyncio's default lazy start
-     "client_udp": bool}                       the client connection is a UDP "connection" (no half-close, 20 s timeout)
+     "client_udp": bool,                       the client connection is a UDP "connection" (no half-close, 20 s timeout)
+     "rewrite": None | 0 | 1}                  addon policy: every server_connect hook redirects TCP connections to ADDRS[i]
 actions: ["open", addr_index] (0, 1: TCP addresses, 2: UDP address) | ["send", conn_ref, nbytes] | ["close", conn_ref, half] | ["hook", blocking] |
          ["wakeup", delay] | ["log"]
 conn_ref: -1 = client, k >= 0 = k-th server connection the layer created (modulo their number).
@@ -120,6 +121,13 @@ class World:
                     data.error = "killed by addon"
                 elif hook.name == "server_connect":
                     data.server.error = "killed by addon"
+            rw = self.plan.get("rewrite")
+            if rw is not None and hook.name == "server_connect" and data.server.transport_protocol == "tcp":
+                # an addon that redirects upstream connections (documented use of server_connect): whatever address
+                # the layer asked for, the connection goes to ADDRS[rw]
+                if data.server.address != ADDRS[rw]:
+                    data.server.address = ADDRS[rw]
+                    self.log("rewrite", idx, rw)
             if dur:
                 await asyncio.sleep(dur * U)
             if hold and isinstance(data, mflow.Flow):
@@ -359,7 +367,8 @@ def decode_plan(data, max_timeout=3, max_conn=9):
                 acts.append(["send", -1, 1])
         reactions.append(acts)
     return {"timeout": timeout, "overshoots": overshoots, "client": client, "connects": connects, "hooks": hooks,
-            "reactions": reactions, "eager": t.flag(1, 2), "client_udp": t.flag(1, 4)}
+            "reactions": reactions, "eager": t.flag(1, 2), "client_udp": t.flag(1, 4),
+            "rewrite": t.below(2) if t.flag(1, 4) else None}
 
 
 def plan_strategy(max_timeout=3, max_conn=9, size=320):
